@@ -15,6 +15,13 @@ CHECKS = {
             "as a sequence, the log predicted under 'each cached element runs once while held'. Exploration of a large "
             "but finite sample; no claim beyond the generated sizes.",
             "trusts vf/ref.py (reference name resolution and evaluation order), the _t tick reference as observation point, small-int arguments"),
+    "C02": ("exploration",
+            "property-based testing of generated edit/evaluation histories (Hypothesis) against a cold twin model that replays only the edits (differential oracle)",
+            "Generated models (inheritance, ItemSpaces, uncached cells, object references, attribute paths) go through generated "
+            "histories of evaluations and every edit kind the statement lists; after each edit a fresh model is built from the "
+            "edits alone and both must accept the same edits and answer a battery of queries identically. A sample of the history "
+            "space; the evidence lists which edit kinds actually required invalidation.",
+            "the twin is modelx itself (detects cache-induced differences only); battery arguments 0..1; dangling object references are not generated"),
     "C03": ("exploration",
             "exhaustive enumeration of all ordered-base DAGs on <=4 spaces x definer subsets x construction orders, plus Hypothesis-generated member/base edit histories, against derivation from scratch with an independent C3",
             "Every ordered-base inheritance DAG on up to four spaces is built in three construction orders with every non-empty "
